@@ -110,7 +110,7 @@ def check_node_versions(ctx, rule):
             for tn in (False, True):
                 m, k = master_prv(testnet=T.const(tn))
                 w = T.obj(BW, dict(master=m, testnet=T.const(tn), mnemonic=T.NONE, password=T.NONE, bip85=T.NONE))
-                for purpose in (44, 49, 84, 7):
+                for purpose in (44, 49, 84, 86, 7):
                     for coin in (0, 1):
                         path = [purpose + H, coin + H, 5 + H]
                         node, _ = ev.call_function('bip32.PubKeyNode.derive_path', [m, T.lst([T.const(x) for x in path])])
@@ -118,16 +118,26 @@ def check_node_versions(ctx, rule):
                         if len(nodes) != 1:
                             ob.undecided('derive_path gave %d results' % len(nodes))
                             continue
-                        bip = 'BIP%d' % purpose if purpose in (44, 49, 84) else 'BIP44'
                         net = 'test' if tn else 'main'
                         for kt, meth in (('PUB', 'node_extended_public_key'), ('PRV', 'node_extended_private_key')):
                             v, _ = ev.call_function('base_wallet.BaseWallet.' + meth, [w, nodes[0]])
-                            ver = slip132.TABLE[(kt, net, bip)]
+                            if purpose in (44, 49, 84):
+                                allowed = {slip132.TABLE[(kt, net, 'BIP%d' % purpose)]}
+                                what = 'version 0x%08X (%s)' % (min(allowed), slip132.LABELS[min(allowed)])
+                            else:
+                                # a purpose without a SLIP-132 flavour of its own: any registered version of this key type
+                                # on this network (today: the BIP32 x/t pair) - never the other network's, never the other type's
+                                allowed = {slip132.TABLE[(kt, net, b)] for b in ('BIP44', 'BIP49', 'BIP84')}
+                                what = 'a %s version of the %s network (%s)' % (
+                                    'public' if kt == 'PUB' else 'private', 'test' if tn else 'main',
+                                    '/'.join(sorted(slip132.LABELS[a] for a in allowed)))
                             ok = False
+                            leaf = None
                             for leaf in distinct_normal_leaves(v):
-                                ok = T.is_op(leaf, 'B58ENC') and T.slice_(leaf[2], T.const(0), T.const(4)) == T.const(ver.to_bytes(4, 'big'))
-                            ob.require(ok, "%s of the node at m/%d'/%d'/5' on a %s wallet must carry version 0x%08X (%s)" % (
-                                meth, purpose, coin, 'testnet' if tn else 'mainnet', ver, slip132.LABELS[ver]), fdet.where,
+                                ok = T.is_op(leaf, 'B58ENC') and T.slice_(leaf[2], T.const(0), T.const(4)) in {
+                                    T.const(a.to_bytes(4, 'big')) for a in allowed}
+                            ob.require(ok, "%s of the node at m/%d'/%d'/5' on a %s wallet must carry %s" % (
+                                meth, purpose, coin, 'testnet' if tn else 'mainnet', what), fdet.where,
                                 found=T.show(T.slice_(leaf[2], T.const(0), T.const(4))) if T.is_op(leaf, 'B58ENC') else T.show(v, maxdepth=3))
 
 
@@ -202,13 +212,6 @@ def run(ctx):
             pth = T.obj(BP, dict(purpose=T.const(purpose + H), coin_type=T.NONE, account=T.NONE, chain=T.NONE, addr_index=T.NONE, private=T.TRUE))
             v, _ = ev.call_function('wallet_utils.Bip32Path.bip', [pth])
             same_term(ob, v, T.const(val), "purpose %d' maps to Bip value %d" % (purpose, val), fb.where)
-        x = S('purpose', type='int')
-        facts = Facts()
-        for purpose in (44, 49, 84):
-            facts = facts.add(T.not_(T.eq(T.const(purpose + H), x)))
-        pth = T.obj(BP, dict(purpose=x, coin_type=T.NONE, account=T.NONE, chain=T.NONE, addr_index=T.NONE, private=T.TRUE))
-        v, _ = ev.call_function('wallet_utils.Bip32Path.bip', [pth], facts=facts)
-        same_term(ob, v, T.const(0), 'any other purpose falls back to the BIP44 (x/t) versions', fb.where)
     # ---------------------------------------------------------------- json / wasabi
     fw = p.get_function('paper_wallet.PaperWallet.wasabi_json')
     for be in BACKENDS:
@@ -216,7 +219,7 @@ def run(ctx):
             with ctx.obligation('C06.WASABI', 'PaperWallet.wasabi_json', '%s/%s' % (be, 'testnet' if tn else 'mainnet'), fw.where) as ob:
                 ev = Evaluator(p, be)
                 ev.step_budget = 2000000
-                w, secrets = paper_wallet('prv', T.const(tn))
+                w, secrets = paper_wallet('prv', T.const(tn), p, be)
                 k = secrets[0]
                 c = T.obj_fields(T.obj_fields(w)['master'])['chain_code']
                 v, f = ev.call_function('paper_wallet.PaperWallet.wasabi_json', [w])
